@@ -52,3 +52,41 @@ Example C19_example :
   fst (exec_row cf false mc (no_children mc) 5 0 (Row 7 0 (TrEv 4) (TgState 1) true ActCall None) (Evt 4 9)
          (init_rnode mc) (Glob [] 0 [] [7] [] 0)) = (Some 1, RN [1] [None; None] [0] [] [] 0%Z false false).
 Proof. vm_compute. repeat split; auto. Qed.
+
+(* ---- outside transitions the policies are indistinguishable (whole machines, whole histories) ---- *)
+From Msm Require Import Spec Lemmas_Sim Lemmas_Core Lemmas_SpecRun Lemmas_SpecPolicy.
+
+(* on the specification function (Spec.v): one transition under any policy is the policy-free reading "leave, act, enter,
+   place the region on the target" - same invocations up to the ids they read, same resulting configuration *)
+Theorem C19_spec_transition_policy_free : forall pol mc r x ev c, pol < 4 ->
+  E (fst (sp_take pol mc r x ev c)) = E (fst (sp_take0 mc r x ev c)) /\ snd (sp_take pol mc r x ev c) = snd (sp_take0 mc r x ev c).
+Proof. exact sp_take_policy_free. Qed.
+Print Assumptions C19_spec_transition_policy_free.
+
+Theorem C19_spec_step_policy_free : forall p1 p2, p1 < 4 -> p2 < 4 -> forall mc ev val c,
+  oeq (sp_process p1 mc ev val c) (sp_process p2 mc ev val c).
+Proof. exact sp_process_policy. Qed.
+Print Assumptions C19_spec_step_policy_free.
+
+(* for the engines: any two configurations (back / back11 / backmp11, either compile policy) under any two of the four
+   policies, every core definition, every history of start / events / stop, every guard valuation: same behaviour
+   invocations in the same order (only the ids they read from the fsm argument may differ - that is what the policy is
+   about), same active ids at every level after every operation, same handled / rejected outcome *)
+Theorem C19_policies_indistinguishable_outside_transitions : forall cf1 cf2 md l,
+  c_pol cf1 < 4 -> c_pol cf2 < 4 ->
+  flat_events md -> core (md_root md) -> cfg_fits cf1 md -> cfg_fits cf2 md ->
+  depth (md_root md) + 2 <= default_fuel -> back_start_queues = true -> mp11_entry_throw_resets = true ->
+  bracketed false l ->
+  Forall2 same_step_obs (run cf1 md l) (run cf2 md l).
+Proof. exact policies_indistinguishable_outside_transitions. Qed.
+Print Assumptions C19_policies_indistinguishable_outside_transitions.
+
+(* the hypotheses are met, and the policy does show in what the behaviours read *)
+Example C19_policies_example :
+  core (md_root ex_core_md) /\ bracketed false ex_core_ops /\ flat_events ex_core_md /\
+  cfg_fits (Cfg Back false 0 false) ex_core_md /\ cfg_fits (Cfg Mp11 false 3 false) ex_core_md /\
+  run (Cfg Back false 0 false) ex_core_md ex_core_ops <> run (Cfg Back false 3 false) ex_core_md ex_core_ops.
+Proof.
+  split; [exact ex_core_ok|]. split; [cbn; repeat split; discriminate|]. split; [intros [|e]; reflexivity|].
+  split; [exact I|]. split; [reflexivity|]. vm_compute. discriminate.
+Qed.
